@@ -11,7 +11,18 @@ import (
 	"ivgsa/internal/sym"
 )
 
-func init() { register("C19", ruleC19) }
+func init() { register("C19", ruleC19, ruleC19_6) }
+
+// ruleC19_6: "the stops given are the ones rendered" - the renderer's side: what the helpers wrote is accepted.
+func ruleC19_6(c *Ctx) {
+	c.R.Rule("C19.6", "what the helpers write is what the renderer accepts: initGradient walks exactly the NSTOPS registers the gradient value names and refuses only invalid stops (non-premultiplied colour, offset outside [0,1], non-increasing offsets), so all 58 stops that fit beside the matrix are rendered", 4)
+	r := c.newRend()
+	if !r.ok {
+		c.R.Unknown("render.(*Renderer).initGradient#validation", "-", "Renderer model not available")
+		return
+	}
+	checkInitGradientValidation(c, r, "C19.6")
+}
 
 // genHooks: invokes on ivg.Destination become DELIVER events; CSel()/NSel()
 // return atoms versioned by the number of state-changing deliveries before
